@@ -240,8 +240,15 @@ pub fn one_run(ctx: &Ctx, idx: u64, out: &mut RunOut) {
     // same shape stream as C01
     let mut rng = Rng::new(ctx.seed, "C01", idx);
     foldhash::sim::set_seed(mix(ctx.seed, idx));
-    let uni = crate::rec::universe_of(idx);
-    let spec = crate::with_rec_universe!(uni, U, draw_shape::<U>(&mut rng, ctx.tier, None));
+    let base: u64 = ctx.tier.pick(48, 480);
+    let (uni, spec) = if idx >= base {
+        // C01's systematic walk over the custom-AIR lists / kinds
+        out.count("custom_air_sweep_runs");
+        crate::props::c01::sweep_shape(&mut rng, ctx.tier, (idx - base) as usize)
+    } else {
+        let uni = crate::rec::universe_of(idx);
+        (uni, crate::with_rec_universe!(uni, U, draw_shape::<U>(&mut rng, ctx.tier, None)))
+    };
     if out.samples.is_empty() {
         out.samples.push(json!({"idx": idx, "shape": {"universe": spec.universe, "kind": spec.kind, "fri": spec.fri, "log_n": spec.log_n}}));
     }
@@ -292,7 +299,7 @@ pub fn main(ctx: &Ctx) -> i32 {
         };
         return replay(ctx, &body);
     }
-    let runs: u64 = ctx.tier.pick(48, 480);
+    let runs: u64 = ctx.tier.pick(48, 480) + crate::props::c01::SWEEP_RUNS;
     let res = crate::core::pool::run_jobs(runs, |idx| {
         let mut out = RunOut::default();
         one_run(ctx, idx, &mut out);
